@@ -175,8 +175,7 @@ def run(db, cx):
                   ok, "deposit paired with subtract in the same block" if ok else
                   "deposit without subtraction", short(ed["loc"]),
                   why="energy deposited but kept by the particle is counted twice")
-    cx.floor("functions subtracting a computed loss (instantiations)", n_inst, 2)
-    cx.floor("functions draining the particle", len(cut_like), 1)
+    cx.floor("functions subtracting energy from the particle (instantiations)", n_inst + len(cut_like), 3)
 
     for f in cut_like:
         subs = [x for x in f.calls(PTV + "::subtract_energy") if drains(x[2])]
